@@ -38,5 +38,6 @@ Record tstate := mkT {
   ctx : bool;                   (* T.ctx != nil: a live context was created and not yet cancelled *)
   cleaning : bool;              (* T.cleaning *)
   skipreq : option msg;         (* root T.skipped: a cleanup function (of this T or of an inner T) asked to skip the test case *)
+  ood : option msg;             (* T.noData: a generator ran out of data inside a cleanup function of this (inner) T *)
 }.
-Definition fresh_t : tstate := mkT None [] false false None.
+Definition fresh_t : tstate := mkT None [] false false None None.
